@@ -1,4 +1,5 @@
 import Cfdm.Lemmas.CodecFile
+import Cfdm.Lemmas.CellMethods
 /-
 C01 — write then read returns the same field construct.
 
@@ -14,20 +15,27 @@ Full-strength statement on the model (all construct classes):
         (hw : writeField o f = .ok nc) :
         ∃ g, readFile nc = [g] ∧ Equiv f g ∧ NamesKept κ f g
 
-where `WFFieldAll` also admits coordinate references with datums and formula terms / domain
-ancillaries (stage B), domains, external cell measures, ragged / gathered compression and
-geometry cells (stage C), and `o` ranges over `scalar` ∈ {true, false} too.
+where `WFFieldAll` covers, besides stages A and B, domains, external cell measures, ragged / gathered
+compression and geometry cells (stage C), and `o` ranges over `scalar` ∈ {true, false} too.
 
-Proved here: `C01_roundtrip_partial`, the statement for **stage A** — any number of domain axes
-(size-1, unlimited, spanned by the data or not), dimension coordinates, auxiliary coordinates
-(N-d, string-valued, scalar), bounds (also climatological), cell measures, field ancillaries and
-cell methods (over axes or free names), any properties (also global ones), any netCDF names, for
-`scalar = True` (the only value `cfdm.write` can pass) and both values of `coordinates`.
-Missing (open, outside the model, covered by the sampled oracle only): coordinate references and
-domain ancillaries, domains, external cell measures, compression, geometries, `scalar = False`,
-constructs sharing one netCDF variable (`_already_in_file`).
-`WFField` excludes what CF-netCDF cannot hold; the exclusions that `cfdm.write` nevertheless
-accepts are findings (`known_findings.json`) and have `decide`-checked witnesses below.
+Proved here:
+* `C01_roundtripB_partial`, the statement for **stages A and B** — any number of domain axes
+  (size-1, unlimited, spanned by the data or not), dimension coordinates, auxiliary coordinates
+  (N-d, string-valued, scalar), bounds (also climatological), cell measures, field ancillaries,
+  cell methods (over axes or free names), **domain ancillaries** (N-d, any axis order, with or without
+  bounds), **coordinate references**: parametric vertical coordinates (`formula_terms` of the coordinate
+  variable and of its bounds variable, `computed_standard_name`, datum) and grid mappings (conversion
+  and datum parameters, coordinates listed or inferred from standard names); any properties (also
+  global ones), any netCDF names; for `scalar = True` (the only value `cfdm.write` can pass) and both
+  values of `coordinates`.  `C01_roundtrip_partial` is its stage-A corollary (no extra hypotheses).
+* `C01_names_keptB_partial`: the netCDF variable names that had been set are found again.
+* `C01_cell_methods_parse_write`: on the level of the words of the `cell_methods` attribute,
+  `_parse_cell_methods` undoes `CellMethod.__str__` for every combination of qualifiers.
+Missing (open): stage C, `scalar = False`, constructs sharing one netCDF variable
+(`_already_in_file`; for a domain ancillary equal to a coordinate the writer model has it —
+`NoSharedDan` keeps it out of the proof).
+`WFField` / `WFFieldB` exclude what CF-netCDF cannot hold; the exclusions that `cfdm.write`
+nevertheless accepts are findings (`known_findings.json`) and have `decide`-checked witnesses below.
 -/
 namespace Cfdm.Props.C01
 open Cfdm.Codec
@@ -44,69 +52,179 @@ def FreeNamesOK (f : MField) (nc : NcFile) : Prop :=
 
 instance (f : MField) (nc : NcFile) : Decidable (FreeNamesOK f nc) := by unfold FreeNamesOK; infer_instance
 
-/-- **Round trip, stage A.**  Writing a well-formed field and reading the file back gives
-exactly one field, which is the original up to construct keys and insertion order. -/
+/-- No domain ancillary is a variable that is already in the file (`_already_in_file`: a domain
+ancillary equal to a coordinate construct, such as the term `a` of `cfdm.example_field(1)`, shares
+the coordinate's variable — modelled by the writer model (`danPlan`), not covered by the proof). -/
+def NoSharedDan (o : Opts) (f : MField) : Prop := ∀ pe ∈ danPlan f (axesPhase o f), pe.2 = none
+
+instance (o : Opts) (f : MField) : Decidable (NoSharedDan o f) := by unfold NoSharedDan; infer_instance
+
+/-- No variable of the dataset is called like the key the modelled reader gives the domain ancillary
+made from another variable (`"@" ++ name`; names of letters, digits, `_`, `.`, `-` never are). -/
+def FileKeysOK (nc : NcFile) : Prop := ∀ v ∈ nc.vars, ∀ w ∈ nc.vars, danKey v.name ≠ w.name
+
+instance (nc : NcFile) : Decidable (FileKeysOK nc) := by unfold FileKeysOK; infer_instance
+
+/-- **Round trip, stages A and B.**  Writing a well-formed field — with domain ancillaries,
+parametric vertical coordinate references (formula terms, bounds formula terms, computed standard
+name, datum) and grid mappings (parameters, datum, coordinates) — and reading the file back gives
+exactly one field, which is the original up to construct keys and insertion order.
+
+Several grid mappings next to a vertical datum are included: the writer adds the parametric coordinate
+to the grid mapping that shares the datum (`_create_vertical_datum`, the step the seeded change C01-5
+breaks), the reader finds it listed there, gives the vertical reference that datum and takes the
+coordinate out again.  Full strength would drop `NoSharedDan` and the artefact `FileKeysOK`. -/
+theorem C01_roundtripB_partial (o : Opts) (ho : o.scalar = true) (f : MField) (hwf : WFFieldB f)
+    (hns : NoSharedDan o f) (nc : NcFile) (hw : writeField o f = .ok nc) (hfree : FreeNamesOK f nc) (hk : FileKeysOK nc) :
+    ∃ g, readFile nc = [g] ∧ Equiv f g := by
+  unfold writeField at hw
+  rw [applyCsn_wf hwf] at hw
+  simp only at hw
+  obtain ⟨names, hn, rfl⟩ := writeField'_wf ho hwf hw
+  have hx : ∀ e ∈ f.ofType .msr, e.con.external = false := by
+    intro e he
+    exact (wf_entry hwf (mem_ofType.mp he).1).1.2.2.2.2.1
+  have hns' : ∀ pe ∈ danPlan f (wfAx f), pe.2 = none := by
+    unfold NoSharedDan at hns
+    rw [axesPhase_wf o ho f hwf] at hns
+    exact hns
+  have hg := naming_good hx hns' hn
+  have hat : NoKeyClash f names := by
+    intro d hd _ e he
+    have h1 := mainVar_mem (o := o) hwf hg hd
+    have h2 := mainVar_mem (o := o) hwf hg he
+    have := hk _ h1 _ h2
+    rw [mainVar_name, mainVar_name] at this
+    exact this
+  exact ⟨_, readFile_wf hwf hg, read_equivB' hwf hg hat hfree⟩
+
+/-- **Round trip, stage A** (no coordinate references, no domain ancillaries): a corollary. -/
 theorem C01_roundtrip_partial (o : Opts) (ho : o.scalar = true) (f : MField) (hwf : WFField f) (nc : NcFile)
     (hw : writeField o f = .ok nc) (hfree : FreeNamesOK f nc) :
     ∃ g, readFile nc = [g] ∧ Equiv f g := by
-  obtain ⟨names, hn, rfl⟩ := writeField_wf ho hwf hw
+  have hB := hwf.toB
+  have hdan : danPlan f (axesPhase o f) = [] := by
+    unfold danPlan
+    have : f.ofType .dan = [] := by
+      unfold MField.ofType
+      apply List.filter_eq_nil_iff.mpr
+      intro e he
+      have := hwf.2.2.2.2.2.2.1 e he
+      simpa using this
+    rw [this]; rfl
+  -- no domain ancillary: the condition on the reader's keys is void
+  unfold writeField at hw
+  rw [applyCsn_wf hB] at hw
+  simp only at hw
+  obtain ⟨names, hn, rfl⟩ := writeField'_wf ho hB hw
   have hx : ∀ e ∈ f.ofType .msr, e.con.external = false := by
     intro e he
-    exact (wf_entry hwf (mem_ofType.mp he).1).1.2.2.2.2.1
-  have hg := naming_good hx hn
-  exact ⟨_, readFile_wf hwf hg, read_equiv hwf hg hfree⟩
+    exact (wf_entry hB (mem_ofType.mp he).1).1.2.2.2.2.1
+  have hns' : ∀ pe ∈ danPlan f (wfAx f), pe.2 = none := by
+    have e : axesPhase o f = wfAx f := axesPhase_wf o ho f hB
+    rw [e] at hdan
+    rw [hdan]; intro pe h; cases h
+  have hg := naming_good hx hns' hn
+  have hat : NoKeyClash f names := by
+    intro d hd ht
+    exact absurd ht (hwf.2.2.2.2.2.2.1 d hd)
+  exact ⟨_, readFile_wf hB hg, read_equivB' hB hg hat hfree⟩
 
-/-- **Names, stage A.**  The field read back carries on every construct (and on every bounds)
-the netCDF variable name the writer gave it; so whenever the writer could use the names that had
-been set (`PinnedKept`: no clash with a name handed out earlier), they are all found again. -/
-theorem C01_names_kept_partial (o : Opts) (ho : o.scalar = true) (f : MField) (hwf : WFField f) (nc : NcFile)
-    (hw : writeField o f = .ok nc) :
+/-- **Names, stages A and B.**  The field read back carries on every construct — domain ancillaries
+included — and on every bounds the netCDF variable name the writer gave it; so whenever the writer
+could use the names that had been set (`PinnedKept`: no clash with a name handed out earlier), they
+are all found again. -/
+theorem C01_names_keptB_partial (o : Opts) (ho : o.scalar = true) (f : MField) (hwf : WFFieldB f)
+    (hns : NoSharedDan o f) (nc : NcFile) (hw : writeField o f = .ok nc) (hk : FileKeysOK nc) :
     ∃ names g, naming f (axesPhase o f) = .ok names ∧ readFile nc = [g] ∧
-      (PinnedKept f names → NamesKept (kappaOf names) f g) := by
-  obtain ⟨names, hn, rfl⟩ := writeField_wf ho hwf hw
+      (PinnedKept f names → NamesKept (kappaB f names) f g) := by
+  unfold writeField at hw
+  rw [applyCsn_wf hwf] at hw
+  simp only at hw
+  obtain ⟨names, hn, rfl⟩ := writeField'_wf ho hwf hw
   have hx : ∀ e ∈ f.ofType .msr, e.con.external = false := by
     intro e he
     exact (wf_entry hwf (mem_ofType.mp he).1).1.2.2.2.2.1
-  have hg := naming_good hx hn
+  have hns' : ∀ pe ∈ danPlan f (wfAx f), pe.2 = none := by
+    unfold NoSharedDan at hns
+    rw [axesPhase_wf o ho f hwf] at hns
+    exact hns
+  have hg := naming_good hx hns' hn
+  have hat : NoKeyClash f names := by
+    intro d hd _ e he
+    have h1 := mainVar_mem (o := o) hwf hg hd
+    have h2 := mainVar_mem (o := o) hwf hg he
+    have := hk _ h1 _ h2
+    rw [mainVar_name, mainVar_name] at this
+    exact this
   refine ⟨names, _, by rw [axesPhase_wf o ho f hwf]; exact hn, readFile_wf hwf hg, ?_⟩
   intro hp
   refine ⟨fun n h => by rw [← hp.1 n h]; rfl, ?_⟩
-  intro e he e' he' hk
-  -- `e'` is what the reader made of `e`
-  rw [read_cons hwf hg] at he'
-  obtain ⟨e0, he0, rfl⟩ := List.mem_map.mp he'
-  have he0' := (readOrder_perm hwf).mem_iff.mp he0
-  have hkk : e0.key = e.key :=
-    kappa_inj hwf hg _ (List.mem_map_of_mem he0') _ (List.mem_map_of_mem he) hk
-  have hee := wf_keys_inj hwf he0' he hkk
-  subst hee
-  obtain ⟨hp1, hp2⟩ := hp.2 e0 he
-  have hnc : (rd o f names e0).con.ncvar = some (nameOf names (.con e0.key)) := by
-    unfold rd Entry.con rdCon
-    simp only
-    cases ht : e0.con.ctype <;> simp only [readCoord, mainVar_name]
-  constructor
-  · intro n h
-    rw [hnc, hp1 n h]
-  · intro b hb n hbn
-    have hc := wf_bounds_coord hwf hg he hb
-    have hrb := readBounds_exact (o := o) hwf hg he hc
-    rw [hb] at hrb
-    simp only [Option.map_some] at hrb
-    have hmv : mainVar f names (wfAx f) e0 = coordVar f names e0 (cdimsOf names (wfAx f) e0) := by
-      unfold mainVar isCoord at *
-      cases ht : e0.con.ctype <;> simp [ht] at hc ⊢
-    have hbb : (rd o f names e0).con.bounds = readBounds (wfFile o f names) (coordVar f names e0 (cdimsOf names (wfAx f) e0)) := by
+  intro e he e' he' hkey
+  have hcons : (readVar (wfFile o f names) (dataVar o f (wfAx f) names)).cons
+      = (readOrder f).map (rd o f names) ++ (dansOrder f).map (rdB o f names) := by
+    show (readVarA (wfFile o f names) (dataVar o f (wfAx f) names)).cons
+      ++ (readB (wfFile o f names) (dataVar o f (wfAx f) names)
+          (readVarA (wfFile o f names) (dataVar o f (wfAx f) names)).cons).dans = _
+    rw [readB_shape hwf hg, read_cons hwf hg]
+  rw [hcons] at he'
+  obtain ⟨hp1, hp2⟩ := hp.2 e he
+  rcases List.mem_append.mp he' with he' | he'
+  · -- `e'` is what the reader made of the construct `e0` (not a domain ancillary)
+    obtain ⟨e0, he0, rfl⟩ := List.mem_map.mp he'
+    obtain ⟨he0', hnd⟩ := mem_consA.mp ((readOrder_perm hwf).mem_iff.mp he0)
+    have hkk : e0.key = e.key := by
+      apply kappaB_inj hwf hg hat _ (List.mem_map_of_mem he0') _ (List.mem_map_of_mem he)
+      rw [← hkey, kappaB_coord hwf he0' hnd]; rfl
+    have hee := wf_keys_inj hwf he0' he hkk
+    subst hee
+    have hnc : (rd o f names e0).con.ncvar = some (nameOf names (.con e0.key)) := by
       unfold rd Entry.con rdCon
       simp only
-      unfold isCoord at hc
-      cases ht : e0.con.ctype with
-      | dim => simp only [readCoord]; rw [hmv]
-      | aux => simp only [readCoord]; rw [hmv]
-      | msr => simp [ht] at hc
-      | fan => simp [ht] at hc
-    rw [hrb] at hbb
-    exact ⟨_, hbb, by simp only; rw [hp2 b hb n hbn]⟩
+      cases ht : e0.con.ctype <;> simp only [readCoord, mainVar_name, danCon]
+    constructor
+    · intro n h
+      rw [hnc, hp1 n h]
+    · intro b hb n hbn
+      have hc := wf_bounds_coord hwf hg he hnd hb
+      have hrb := readBounds_exact (o := o) hwf hg he hc
+      rw [hb] at hrb
+      simp only [Option.map_some] at hrb
+      have hmv : mainVar f names (wfAx f) e0 = coordVar f names e0 (cdimsOf names (wfAx f) e0) := by
+        unfold mainVar isCoord at *
+        cases ht : e0.con.ctype <;> simp [ht] at hc ⊢
+      have hbb : (rd o f names e0).con.bounds = readBounds (wfFile o f names) (coordVar f names e0 (cdimsOf names (wfAx f) e0)) := by
+        unfold rd Entry.con rdCon
+        simp only
+        unfold isCoord at hc
+        cases ht : e0.con.ctype with
+        | dim => simp only [readCoord]; rw [hmv]
+        | aux => simp only [readCoord]; rw [hmv]
+        | msr => simp [ht] at hc
+        | fan => simp [ht] at hc
+        | dan => simp [ht] at hc
+      rw [hrb] at hbb
+      exact ⟨_, hbb, by simp only [rdBounds]; rw [hp2 b hb n hbn]⟩
+  · -- `e'` is what the reader made of the domain ancillary `d`
+    obtain ⟨d, hd, rfl⟩ := List.mem_map.mp he'
+    obtain ⟨hdm, hdt⟩ := List.mem_filter.mp ((dansOrder_perm hwf).mem_iff.mp hd)
+    have hdt' : d.con.ctype = .dan := by simpa using hdt
+    have hkk : d.key = e.key := by
+      apply kappaB_inj hwf hg hat _ (List.mem_map_of_mem hdm) _ (List.mem_map_of_mem he)
+      rw [← hkey, kappaB_dan hwf hdm hdt']; rfl
+    have hee := wf_keys_inj hwf hdm he hkk
+    subst hee
+    constructor
+    · intro n h
+      have : (rdB o f names d).con.ncvar = some (nameOf names (.con d.key)) := by
+        unfold rdB Entry.con rdCon
+        simp only
+        rw [hdt']
+        rfl
+      rw [this, hp1 n h]
+    · intro b hb n hbn
+      have : (rdB o f names d).con.bounds = some (rdBounds o f names d b) := rdCon_dan_bounds hwf hg he hdt' hb
+      exact ⟨_, this, by simp only [rdBounds]; rw [hp2 b hb n hbn]⟩
 
 /-! ### Non-vacuity: concrete fields meeting the hypotheses -/
 
@@ -169,6 +287,114 @@ example : ∃ g, (∃ nc, writeField {} exField0 = .ok nc ∧ readFile nc = [g])
 example : WFField exField1A := by decide
 example : accepts { coordinates := true } exField1A = true := by decide +kernel
 
+/-! ### Non-vacuity, stage B -/
+
+/-- The abstraction of `cfdm.example_field(1)` (harness/corr/C01.py `abstract_field`): four domain
+axes, four dimension coordinates (three with bounds), three auxiliary coordinates, a cell measure, a
+field ancillary, two cell methods, three domain ancillaries (two with bounds), a parametric
+vertical coordinate reference with a datum and a rotated-pole grid mapping with the same datum.
+Two changes: the domain ancillary `a`, which in the example is equal to its coordinate and so
+shares the coordinate's variable (`NoSharedDan`), has values of its own; the string-valued auxiliary
+coordinate has no masked element (the harness does not compare masked strings). -/
+def exField1B : MField :=
+  { props := [("project", "vc6f9ad87955e"), ("standard_name", "air_temperature"), ("units", "vf3d578838536")]
+    ncvar := (some "ta")
+    data := ⟨107348807817608, false⟩
+    dataAxes := ["domainaxis0", "domainaxis1", "domainaxis2"]
+    axes := [("domainaxis0", ⟨1, (some "atmosphere_hybrid_height_coordinate"), false⟩), ("domainaxis1", ⟨10, (some "y"), false⟩), ("domainaxis2", ⟨9, (some "x"), false⟩), ("domainaxis3", ⟨1, none, false⟩)]
+    cons := [
+      ("dimensioncoordinate0", { ctype := .dim, props := [("computed_standard_name", "vb8168e650227"), ("standard_name", "atmosphere_hybrid_height_coordinate"), ("units", "vdd4d60ebd9f2")], ncvar := (some "atmosphere_hybrid_height_coordinate"), data := (some ⟨171351176160285, false⟩), bounds := (some { props := [], ncvar := (some "atmosphere_hybrid_height_coordinate_bounds"), ncdim := none, data := ⟨54059169475299, false⟩, nverts := 2 }), climatology := false, measure := none, external := false }, ["domainaxis0"]),
+      ("dimensioncoordinate1", { ctype := .dim, props := [("standard_name", "grid_latitude"), ("units", "v5327eba8a019")], ncvar := (some "y"), data := (some ⟨155059457251685, false⟩), bounds := (some { props := [], ncvar := (some "y_bnds"), ncdim := none, data := ⟨207653800254386, false⟩, nverts := 2 }), climatology := false, measure := none, external := false }, ["domainaxis1"]),
+      ("dimensioncoordinate2", { ctype := .dim, props := [("standard_name", "grid_longitude"), ("units", "v5327eba8a019")], ncvar := (some "x"), data := (some ⟨125435908724873, false⟩), bounds := (some { props := [], ncvar := (some "x_bnds"), ncdim := none, data := ⟨271378814485813, false⟩, nverts := 2 }), climatology := false, measure := none, external := false }, ["domainaxis2"]),
+      ("dimensioncoordinate3", { ctype := .dim, props := [("standard_name", "time"), ("units", "vef285725dc60")], ncvar := (some "time"), data := (some ⟨39281972191842, false⟩), bounds := none, climatology := false, measure := none, external := false }, ["domainaxis3"]),
+      ("auxiliarycoordinate0", { ctype := .aux, props := [("standard_name", "latitude"), ("units", "vbbabcede06af")], ncvar := (some "latitude_1"), data := (some ⟨31615526774531, false⟩), bounds := none, climatology := false, measure := none, external := false }, ["domainaxis1", "domainaxis2"]),
+      ("auxiliarycoordinate1", { ctype := .aux, props := [("standard_name", "longitude"), ("units", "vf7b4babfddae")], ncvar := (some "longitude_1"), data := (some ⟨186196797358962, false⟩), bounds := none, climatology := false, measure := none, external := false }, ["domainaxis2", "domainaxis1"]),
+      ("auxiliarycoordinate2", { ctype := .aux, props := [("long_name", "v9fe682034973")], ncvar := (some "auxiliary"), data := (some ⟨186647868655905, true⟩), bounds := none, climatology := false, measure := none, external := false }, ["domainaxis1"]),
+      ("cellmeasure0", { ctype := .msr, props := [("units", "v01ec0a57f26c")], ncvar := (some "cell_measure"), data := (some ⟨18864733469660, false⟩), bounds := none, climatology := false, measure := (some "area"), external := false }, ["domainaxis2", "domainaxis1"]),
+      ("fieldancillary0", { ctype := .fan, props := [("standard_name", "air_temperature\u00b7standard_error"), ("units", "vf3d578838536")], ncvar := (some "air_temperature_standard_error"), data := (some ⟨75429202923086, false⟩), bounds := none, climatology := false, measure := none, external := false }, ["domainaxis1", "domainaxis2"]),
+      ("domainancillary0", { ctype := .dan, props := [("units", "vdd4d60ebd9f2")], ncvar := (some "a"), data := (some ⟨13995364138727, false⟩), bounds := (some { props := [], ncvar := (some "a_bounds"), ncdim := none, data := ⟨175773936645087, false⟩, nverts := 2 }), climatology := false, measure := none, external := false }, ["domainaxis0"]),
+      ("domainancillary1", { ctype := .dan, props := [], ncvar := (some "b"), data := (some ⟨257544101566318, false⟩), bounds := (some { props := [], ncvar := (some "b_bounds"), ncdim := none, data := ⟨49724132348456, false⟩, nverts := 2 }), climatology := false, measure := none, external := false }, ["domainaxis0"]),
+      ("domainancillary2", { ctype := .dan, props := [("standard_name", "surface_altitude"), ("units", "vdd4d60ebd9f2")], ncvar := (some "surface_altitude"), data := (some ⟨190532591548088, false⟩), bounds := none, climatology := false, measure := none, external := false }, ["domainaxis1", "domainaxis2"])]
+    cms := [{ axes := ["domainaxis1", "domainaxis2"], method := (some "mean"), quals := [("where", "land"), ("interval", "0.1 degrees")] }, { axes := ["domainaxis3"], method := (some "maximum"), quals := [] }]
+    refs := [
+      ("coordinatereference0", { ncvar := none, coords := ["dimensioncoordinate0"], params := [("computed_standard_name", "vb8168e650227"), ("standard_name", "atmosphere_hybrid_height_coordinate")], datum := [("earth_radius", "vf6395ea30b96")], terms := [("a", (some "domainancillary0")), ("b", (some "domainancillary1")), ("orog", (some "domainancillary2"))] }),
+      ("coordinatereference1", { ncvar := (some "rotated_latitude_longitude"), coords := ["auxiliarycoordinate0", "auxiliarycoordinate1", "dimensioncoordinate1", "dimensioncoordinate2"], params := [("grid_mapping_name", "rotated_latitude_longitude"), ("grid_north_pole_latitude", "v2705af91ef44"), ("grid_north_pole_longitude", "vd55ee31d2469")], datum := [("earth_radius", "vf6395ea30b96")], terms := [] })] }
+
+/-- `cfdm.example_field(1)` is in the proved class (stage B), … -/
+example : WFFieldB exField1B := by decide
+example : NoSharedDan {} exField1B := by decide
+/-- … it is not in stage A, … -/
+example : ¬ WFField exField1B := by decide
+
+/-- The hypotheses of `C01_roundtripB_partial` about the written file, as one decidable check. -/
+def acceptsB (o : Opts) (f : MField) : Bool :=
+  match writeField o f with
+  | .ok nc => decide (FreeNamesOK f nc) && decide (FileKeysOK nc)
+  | .error _ => false
+
+theorem acceptsB_spec {o : Opts} {f : MField} (h : acceptsB o f = true) :
+    ∃ nc, writeField o f = .ok nc ∧ FreeNamesOK f nc ∧ FileKeysOK nc := by
+  unfold acceptsB at h
+  split at h
+  · rename_i nc hnc
+    simp only [Bool.and_eq_true, decide_eq_true_eq] at h
+    exact ⟨nc, hnc, h.1, h.2⟩
+  · cases h
+
+/-- … the writer accepts it, and the theorem applies to it: the file it is written to has, among its
+18 variables, the `formula_terms` attribute on the parametric coordinate and on its bounds variable
+(`a: a_bounds b: b_bounds orog: surface_altitude`) and a `grid_mapping` attribute, and is read back as
+one field equivalent to the original. -/
+example : acceptsB {} exField1B = true := by decide +kernel
+example : ∃ g, (∃ nc, writeField {} exField1B = .ok nc ∧ readFile nc = [g]) ∧ Equiv exField1B g := by
+  obtain ⟨nc, hw, hf, hk⟩ := acceptsB_spec (o := {}) (f := exField1B) (by decide +kernel)
+  obtain ⟨g, hr, he⟩ := C01_roundtripB_partial {} rfl exField1B (by decide) (by decide) nc hw hf hk
+  exact ⟨g, ⟨nc, hw, hr⟩, he⟩
+
+/-- The bounds `formula_terms` the writer gives `exField1B`: the bounds variable of every term that
+spans the vertical axis and has bounds, the term's own variable otherwise (the rule that the seeded
+change C01-3 breaks). -/
+example : (match writeField {} exField1B with
+           | .ok nc => nc.formulaTerms.lookup "atmosphere_hybrid_height_coordinate_bounds"
+           | .error _ => none)
+    = some [("a", "a_bounds"), ("b", "b_bounds"), ("orog", "surface_altitude")] := by decide +kernel
+
+/-- Two grid mappings with different datums and a parametric vertical coordinate with the datum of the
+first (which is not the last reference): the input class of the seeded change C01-5. -/
+def exField2GM : MField :=
+  { props := [("standard_name", "air_temperature")], ncvar := some "ta", data := ⟨1, false⟩
+    dataAxes := ["domainaxis0", "domainaxis1", "domainaxis2"]
+    axes := [("domainaxis0", ⟨2, none, false⟩), ("domainaxis1", ⟨3, none, false⟩), ("domainaxis2", ⟨4, none, false⟩)]
+    cons := [
+      ("dimensioncoordinate0", { ctype := .dim, props := [("computed_standard_name", "v1"), ("standard_name", "atmosphere_hybrid_height_coordinate")], ncvar := some "z", data := some ⟨2, false⟩ }, ["domainaxis0"]),
+      ("dimensioncoordinate1", { ctype := .dim, props := [("standard_name", "grid_latitude")], ncvar := some "y", data := some ⟨3, false⟩ }, ["domainaxis1"]),
+      ("dimensioncoordinate2", { ctype := .dim, props := [("standard_name", "grid_longitude")], ncvar := some "x", data := some ⟨4, false⟩ }, ["domainaxis2"]),
+      ("auxiliarycoordinate0", { ctype := .aux, props := [("standard_name", "latitude")], ncvar := some "lat", data := some ⟨5, false⟩ }, ["domainaxis1", "domainaxis2"]),
+      ("auxiliarycoordinate1", { ctype := .aux, props := [("standard_name", "longitude")], ncvar := some "lon", data := some ⟨6, false⟩ }, ["domainaxis1", "domainaxis2"]),
+      ("domainancillary0", { ctype := .dan, props := [], ncvar := some "a", data := some ⟨7, false⟩ }, ["domainaxis0"]),
+      ("domainancillary1", { ctype := .dan, props := [], ncvar := some "b", data := some ⟨8, false⟩ }, ["domainaxis0", "domainaxis1"])]
+    cms := []
+    refs := [
+      ("coordinatereference0", { ncvar := some "rotated_pole", coords := ["dimensioncoordinate1", "dimensioncoordinate2"], params := [("grid_mapping_name", "rotated_latitude_longitude"), ("grid_north_pole_latitude", "v38")], datum := [("earth_radius", "v6371007")], terms := [] }),
+      ("coordinatereference1", { ncvar := some "crs", coords := ["auxiliarycoordinate0", "auxiliarycoordinate1"], params := [("grid_mapping_name", "latitude_longitude")], datum := [("earth_radius", "v7000000")], terms := [] }),
+      ("coordinatereference2", { ncvar := none, coords := ["dimensioncoordinate0"], params := [("computed_standard_name", "v1"), ("standard_name", "atmosphere_hybrid_height_coordinate")], datum := [("earth_radius", "v6371007")], terms := [("a", some "domainancillary0"), ("b", some "domainancillary1")] })] }
+
+example : WFFieldB exField2GM := by decide
+example : NoSharedDan {} exField2GM := by decide
+example : acceptsB {} exField2GM = true := by decide +kernel
+/-- The parametric coordinate `z` is listed under the grid mapping that has its datum (`rotated_pole`,
+not the last one), … -/
+example : (match writeField {} exField2GM with
+           | .ok nc => nc.gridMapping
+           | .error _ => [])
+    = [("ta", [("rotated_pole", ["x", "y", "z"]), ("crs", ["lat", "lon"])])] := by decide +kernel
+/-- … and the theorem applies: the field read back is equivalent to the original (in particular the
+vertical reference has its datum again). -/
+example : ∃ g, (∃ nc, writeField {} exField2GM = .ok nc ∧ readFile nc = [g]) ∧ Equiv exField2GM g := by
+  obtain ⟨nc, hw, hf, hk⟩ := acceptsB_spec (o := {}) (f := exField2GM) (by decide +kernel)
+  obtain ⟨g, hr, he⟩ := C01_roundtripB_partial {} rfl exField2GM (by decide) (by decide) nc hw hf hk
+  exact ⟨g, ⟨nc, hw, hr⟩, he⟩
+
 /-! ### What `WFField` excludes: witnesses on the model (each reproduced on cfdm, see known_findings.json) -/
 
 /-- What comes back, reduced to what the witnesses look at: per field the number of data axes, the
@@ -209,6 +435,30 @@ of 1; CF-netCDF has no other way to let two variables share the axis).  Finding
 theorem C01_inserted_axis_counterexample :
     ¬ WFField exTwoOnScalarAxis ∧ roundTripShape {} exTwoOnScalarAxis = [(2, 2, [.dim, .aux])] := by decide +kernel
 
+/-- A parametric vertical coordinate with bounds whose term `orog` does not span the vertical axis
+but has bounds … -/
+def exOrogBounds : MField :=
+  { props := [("standard_name", "air_temperature")], ncvar := none, data := ⟨1, false⟩, dataAxes := ["domainaxis0", "domainaxis1"]
+    axes := [("domainaxis0", ⟨2, none, false⟩), ("domainaxis1", ⟨3, none, false⟩)]
+    cons := [("dimensioncoordinate0", { ctype := .dim, props := [("computed_standard_name", "v1"), ("standard_name", "atmosphere_hybrid_height_coordinate")], ncvar := none, data := some ⟨2, false⟩, bounds := some { props := [], ncvar := none, ncdim := none, data := ⟨3, false⟩, nverts := 2 } }, ["domainaxis0"]),
+             ("domainancillary0", { ctype := .dan, props := [], ncvar := none, data := some ⟨4, false⟩ }, ["domainaxis0"]),
+             ("domainancillary1", { ctype := .dan, props := [("standard_name", "surface_altitude")], ncvar := none, data := some ⟨5, false⟩, bounds := some { props := [], ncvar := none, ncdim := none, data := ⟨6, false⟩, nverts := 2 } }, ["domainaxis1"])]
+    cms := []
+    refs := [("coordinatereference0", { ncvar := none, coords := ["dimensioncoordinate0"], params := [("computed_standard_name", "v1"), ("standard_name", "atmosphere_hybrid_height_coordinate")], datum := [], terms := [("a", some "domainancillary0"), ("orog", some "domainancillary1")] })] }
+
+/-- … is outside the proved class (`boundsEncodable`): the bounds variable of the parametric coordinate
+names, in its `formula_terms`, only the bounds of terms that span the vertical axis (CF 7.1), and the
+domain ancillary variable gets no `bounds` attribute — the bounds of `orog` are written to a variable
+that nothing refers to, which is read as a second field, and `orog` comes back without bounds.
+Finding `domain-ancillary-bounds-not-named-by-bounds-formula-terms`. -/
+theorem C01_dan_bounds_counterexample :
+    ¬ WFFieldB exOrogBounds ∧
+    (match writeField {} exOrogBounds with
+     | .ok nc => (readFile nc).map (fun (g : MField) => (g.ncvar, g.cons.map (fun (e : Entry) => (e.con.ctype, e.con.bounds.isSome))))
+     | .error _ => [])
+      = [(some "air_temperature", [(.dim, true), (.dan, false), (.dan, false)]), (some "bounds", [])] := by
+  decide +kernel
+
 def roundTripShapeOld (o : Opts) (f : MField) : List (Nat × Nat × List CType) :=
   match writeFieldOld o f with
   | .ok nc => (readFile nc).map (fun g => (g.dataAxes.length, g.axes.length, g.cons.map (fun e => e.con.ctype)))
@@ -225,9 +475,11 @@ theorem C01_old_inserted_axis_counterexample :
 holds for the writer as it is as well. -/
 theorem C01_old_eq_new_on_wf (o : Opts) (ho : o.scalar = true) (f : MField) (hwf : WFField f) :
     writeFieldOld o f = writeField o f := by
-  have h1 := axesPhase_wf o ho f hwf
-  have h2 := axesPhaseOld_wf o ho f hwf
-  unfold writeFieldOld writeField
+  have h1 := axesPhase_wf o ho f hwf.toB
+  have h2 := axesPhaseOld_wf o ho f hwf.toB
+  unfold writeFieldOld writeField writeField'
+  rw [applyCsn_wf hwf.toB]
+  simp only
   rw [h1, h2]
 
 /-- A netCDF variable name that the writer has already handed out (here the default dimension name
@@ -244,5 +496,64 @@ theorem C01_pinned_name_counterexample :
     (match naming exPinnedClash (axesPhase {} exPinnedClash) with
      | .ok names => nameOf names (.con "auxiliarycoordinate0")
      | .error _ => "") = "dim_1" := by decide +kernel
+
+/-! ### The `cell_methods` attribute: `_parse_cell_methods` undoes `CellMethod.__str__`
+
+`NcVar.cellMethods` above is the parsed attribute.  On the level of the attribute's words
+(`Cfdm.CellMethods`: the writer is `CellMethod.__str__`, the reader the token loop of
+`_parse_cell_methods_string`) the reader with fixes/C01-cell-method-interval-units.patch gives back
+every list of cell methods, whatever combination of `within` / `where` / `over`, intervals (with or
+without units) and comment they carry. -/
+
+open Cfdm.CellMethods in
+/-- **parse ∘ write = id** for every list of cell methods `CellMethod.__str__` can write
+(`WFCM`: the method is a plain word, interval values are literals, units and comment words are not
+keywords, at most one interval or one per axis). -/
+theorem C01_cell_methods_parse_write (lit : Word → Bool) (cms : List CM) (h : ∀ cm ∈ cms, WFCM lit cm) :
+    parse stopNew lit (writeCMs cms) = some cms :=
+  parse_writeCMs lit cms h
+
+namespace CMExamples
+open Cfdm.CellMethods
+
+def numeral (w : Word) : Bool := !w.isEmpty && w.all (fun c => c.isDigit || c == '.')
+
+/-- `area: mean where land over all_area_types` (two portion qualifiers, CF 7.3.3),
+`lat: lon: maximum within days (interval: 1 hour interval: 0.5 comment: sampled twice)`,
+`time: mean over years (masked)`. -/
+def exCMs : List CM :=
+  [ { axes := ["area".toList], method := "mean".toList, where_ := some "land".toList, over := some "all_area_types".toList },
+    { axes := ["lat".toList, "lon".toList], method := "maximum".toList, within := some "days".toList,
+      intervals := [("1".toList, some "hour".toList), ("0.5".toList, none)],
+      comment := some ["sampled".toList, "twice".toList] },
+    { axes := ["time".toList], method := "mean".toList, over := some "years".toList, comment := some ["masked".toList] } ]
+
+/-- The examples meet the hypothesis of `C01_cell_methods_parse_write` … -/
+example : ∀ cm ∈ exCMs, WFCM numeral cm := by decide
+/-- … they are written as CF writes them … -/
+example : (writeCMs exCMs).map String.ofList =
+    ["area:", "mean", "where", "land", "over", "all_area_types",
+     "lat:", "lon:", "maximum", "within", "days", "(", "interval:", "1", "hour", "interval:", "0.5", "comment:", "sampled", "twice", ")",
+     "time:", "mean", "over", "years", "(", "masked", ")"] := by decide
+/-- … and read back. -/
+example : parse stopNew numeral (writeCMs exCMs) = some exCMs := by decide
+
+/-- `lat: mean (interval: 1 comment: sampled twice)`: an interval without units before a comment. -/
+def exUnitless : List CM :=
+  [ { axes := ["lat".toList], method := "mean".toList, intervals := [("1".toList, none)],
+      comment := some ["sampled".toList, "twice".toList] } ]
+
+end CMExamples
+
+open Cfdm.CellMethods CMExamples in
+/-- The reader as it is (`stopOld`: the word after an interval value is its units unless it is
+`)`) takes the keyword `comment:` for the units of a unitless interval and loses the comment; the
+patched reader does not.  Finding `cell-method-interval-without-units-followed-by-interval-or-comment`. -/
+theorem C01_cell_methods_old_code_counterexample :
+    (∀ cm ∈ exUnitless, WFCM numeral cm) ∧
+    parse stopNew numeral (writeCMs exUnitless) = some exUnitless ∧
+    parse stopOld numeral (writeCMs exUnitless) =
+      some [ { axes := ["lat".toList], method := "mean".toList, intervals := [("1".toList, some "comment:".toList)] } ] := by
+  decide
 
 end Cfdm.Props.C01
